@@ -8,6 +8,7 @@ import (
 	"github.com/nspcc-dev/neo-go/pkg/core/transaction"
 	"github.com/nspcc-dev/neo-go/pkg/io"
 	"github.com/nspcc-dev/neo-go/pkg/network"
+	"github.com/nspcc-dev/neo-go/pkg/network/payload"
 	"github.com/nspcc-dev/neo-go/pkg/smartcontract"
 	"github.com/nspcc-dev/neo-go/pkg/util"
 	"github.com/nspcc-dev/neo-go/pkg/vm/emit"
@@ -67,6 +68,20 @@ func (r *run) decide(s Step) error {
 	}
 	k := 0
 	via := func() *peer { k++; return alive[k%len(alive)] }
+	// delivery of the fake validators' payloads: pushed or announced (the node asks for them), optionally twice over two connections
+	deliver := func(e *payload.Extensible, name string) {
+		for i := 0; i < 1+s.Times; i++ {
+			p := via()
+			if s.Via == "inv" || (s.Via == "mix" && k%2 == 0) {
+				p.mu.Lock()
+				p.exts[e.Hash()] = e
+				p.mu.Unlock()
+				p.sendInv(payload.ExtensibleType, []util.Uint256{e.Hash()})
+			} else {
+				p.sendExt(e, "push", name)
+			}
+		}
+	}
 	done := func() bool { return int(n.bc.BlockHeight()) >= h }
 	emit := func(view int, how string) {
 		r.emit(map[string]any{"event": "decide", "n": n.id, "h": h, "decided": done(), "view": view, "via": how, "timeouts": timeouts, "silent": s.Silent})
@@ -105,7 +120,7 @@ func (r *run) decide(s Step) error {
 			case !silent[prim]:
 				st := Step{Op: "x", X: fmt.Sprintf("decide-req-%d-%d", h, view), From: prim, Type: "PrepareRequest", View: view, Txs: s.T}
 				e := r.craft(n, st)
-				via().sendExt(e, "push", st.X)
+				deliver(e, st.X)
 				r.mu.Lock()
 				ri = r.reqs[key]
 				r.mu.Unlock()
@@ -120,17 +135,29 @@ func (r *run) decide(s Step) error {
 					continue
 				}
 				st := Step{Op: "x", X: fmt.Sprintf("decide-resp-%d-%d-%d", h, view, v), From: v, Type: "PrepareResponse", View: view}
-				if r.extOf(st.X) == nil {
-					via().sendExt(r.craft(n, st), "push", st.X)
+				if r.extOf(st.X) == nil && r.respOf(h, view, v) == nil {
+					deliver(r.craft(n, st), st.X)
 				}
 			}
 			if err := r.sync(); err != nil {
 				return err
 			}
+			// an honest validator commits once it has seen M preparations: the primary's request, the fake backups' responses
+			// and the node's own response (its request if it is the primary)
+			preps := 0
+			for _, v := range fakes {
+				if v != prim || !silent[prim] {
+					preps++
+				}
+			}
+			if prim == n.id || r.ownAt(n, "PrepareResponse", h, view) {
+				preps++
+			}
+			committed := preps >= m
 			for _, v := range fakes {
 				st := Step{Op: "x", X: fmt.Sprintf("decide-commit-%d-%d-%d", h, view, v), From: v, Type: "Commit", View: view}
-				if r.extOf(st.X) == nil && !done() {
-					via().sendExt(r.craft(n, st), "push", st.X)
+				if committed && r.extOf(st.X) == nil && !done() {
+					deliver(r.craft(n, st), st.X)
 				}
 			}
 			if err := r.sync(); err != nil {
@@ -140,7 +167,7 @@ func (r *run) decide(s Step) error {
 				emit(r.viewOfOwnCommit(n, h, view), r.how(n, h))
 				return nil
 			}
-			if len(fakes) >= m {
+			if committed && len(fakes) >= m {
 				// the other validators have the block without the node: it reaches the node as any block does
 				if b := r.assemble(h, ri, fakes[:m]); b != nil {
 					p := via()
@@ -156,6 +183,23 @@ func (r *run) decide(s Step) error {
 				}
 			}
 		}
+		// messages are delivered: whatever the honest validators sent for this height reaches the node (again, directly) - what
+		// their answers to its recovery requests would carry; and if the node has committed in some view, the others (who accept
+		// payloads of that view as long as more than f validators are committed or lost) complete it
+		recover := func() (bool, error) {
+			r.redeliver(n, h, via)
+			r.completeCommitted(n, h, fakes, via)
+			if err := r.sync(); err != nil {
+				return false, err
+			}
+			return done(), nil
+		}
+		if ok, err := recover(); err != nil {
+			return err
+		} else if ok {
+			emit(r.viewOfOwnCommit(n, h, view), r.how(n, h))
+			return nil
+		}
 		// next view: the node's timer fires, everybody asks for the change
 		for i := 0; i < 2; i++ {
 			if n.timer.fire() {
@@ -168,6 +212,12 @@ func (r *run) decide(s Step) error {
 			if r.ownAt(n, "ChangeView", h, view) {
 				break
 			}
+			if ok, err := recover(); err != nil {
+				return err
+			} else if ok {
+				emit(r.viewOfOwnCommit(n, h, view), r.how(n, h))
+				return nil
+			}
 		}
 		for _, v := range fakes {
 			st := Step{Op: "x", X: fmt.Sprintf("decide-cv-%d-%d-%d", h, view, v), From: v, Type: "ChangeView", View: view}
@@ -178,6 +228,47 @@ func (r *run) decide(s Step) error {
 		return err
 	}
 	emit(maxViews, r.how(n, h))
+	return nil
+}
+
+// redeliver pushes every valid payload the fake validators crafted for height h once more.
+func (r *run) redeliver(n *node, h int, via func() *peer) {
+	r.mu.Lock()
+	list := append([]namedExt(nil), r.byHeight[h]...)
+	r.mu.Unlock()
+	for _, x := range list {
+		via().sendExt(x.e, "push", x.name)
+	}
+}
+
+// completeCommitted: the node sent its Commit in view w - M preparations existed, the honest validators commit there too.
+func (r *run) completeCommitted(n *node, h int, fakes []int, via func() *peer) {
+	for w := 0; w <= maxViews; w++ {
+		if !r.ownAt(n, "Commit", h, w) {
+			continue
+		}
+		r.mu.Lock()
+		ri := r.reqs[[2]int{h, w}]
+		r.mu.Unlock()
+		if ri == nil {
+			continue
+		}
+		for _, v := range fakes {
+			st := Step{Op: "x", X: fmt.Sprintf("decide-commit-%d-%d-%d", h, w, v), From: v, Type: "Commit", View: w}
+			if r.extOf(st.X) == nil {
+				via().sendExt(r.craft(n, st), "push", st.X)
+			}
+		}
+	}
+}
+
+// respOf: a PrepareResponse of validator v for (h, view) that the script sent already.
+func (r *run) respOf(h, view, v int) any {
+	r.mu.Lock()
+	defer r.mu.Unlock()
+	if r.resps[[3]int{h, view, v}] {
+		return true
+	}
 	return nil
 }
 
